@@ -131,6 +131,46 @@ func genC06(seed int64, tier string) []caseOut {
 	r := rand.New(rand.NewSource(seed))
 	codes := []uint{18, 19, 18, 19, 17, 0x16, 0, 20, 1 << 20, 18, 19, 0x1012, 0xb212, 0xb213, 0x112, 0x1013, 1<<32 | 0x12, 0x92, 0x93}
 	var out []caseOut
+	// documents the canonicalizer refuses inside a string literal: whatever it did with them must
+	// not reach the next value (fed right before every call below)
+	poison := func() {
+		for _, bad := range []string{"{\"admin-\\x\":0}", "{\"k\":\"abc", "{\"k\":\"\\ud800\"}", "{\"k\":\"a\\u12\"}", "{\"k\":\"a\x01b\"}", "{\"prefix-\\q\":{\"a\":1}}"} {
+			hashing.CalculateModelMultihash([]byte(bad), 18)
+		}
+	}
+	// integer literals beyond 2^53 that are no doubles: hashed as the double they denote, however spelled
+	for k, grp := range [][]string{{"9007199254740993", "9007199254740992", "9.007199254740992e15", "9007199254740993.0", "9007199254740992.5"},
+		{"9999999999999999", "10000000000000000", "1e16", "1E+16"}, {"9007199254740995", "9007199254740996"}, {"-9007199254740993", "-9007199254740992"},
+		{"4503599627370497.5", "4503599627370498"}} {
+		code := []uint{18, 19}[k%2]
+		text := `{"n":` + grp[0] + `,"s":"x"}`
+		poison()
+		h, herr := hashing.CalculateModelMultihash([]byte(text), code)
+		id, iderr := docutil.CalculateID("did:ns", []byte(text), code)
+		var checks []string
+		var recs []interface{}
+		for j, lit := range append(append([]string{}, grp...), "8"+grp[0][1:]) {
+			vtext := `{"s":"x","n":` + lit + `}`
+			expect := j < len(grp)
+			err := hashing.IsValidModelMultihash([]byte(vtext), h)
+			c, cerr := hashing.GetMultihashCode(h)
+			cs := "None"
+			if cerr == nil {
+				cs = "(Some " + cZu(c) + ")"
+			}
+			cu := hashing.IsComputedUsingMultihashAlgorithms(h, []uint{18, 19})
+			cu1 := hashing.IsComputedUsingMultihashAlgorithms(h, []uint{19})
+			checks = append(checks, fmt.Sprintf("(mk_vcheck %s %s %s %s %s %s %s)", cStr(vtext), cStr(h), cBool(err == nil), cBool(expect), cs, cBool(cu), cBool(cu1)))
+			recs = append(recs, map[string]interface{}{"kind": "integer-beyond-2^53", "value": vtext, "hash": h, "impl_valid": err == nil, "expect_valid": expect})
+		}
+		hh := sha256.Sum256([]byte(text))
+		out = append(out, caseOut{
+			Coq:    fmt.Sprintf("(mk_c06 %s %s %s %s %s)", cStr(text), cZu(uint64(code)), optStr(h, herr), optStr(id, iderr), cList(checks)),
+			Rec:    map[string]interface{}{"value": text, "code": code, "impl_hash": h, "impl_hash_err": herr != nil, "impl_id": id, "checks": recs},
+			Label:  fmt.Sprintf("code-%d,integer-beyond-2^53", code),
+			NonTri: fmt.Sprintf("%x", hh[:8]),
+		})
+	}
 	for i := 0; i < n; i++ {
 		var v *jv
 		if r.Intn(5) == 0 {
@@ -140,11 +180,17 @@ func genC06(seed int64, tier string) []caseOut {
 		}
 		text := spell(v, r, 0)
 		code := codes[r.Intn(len(codes))]
+		if i%2 == 0 {
+			poison()
+		}
 		h, herr := hashing.CalculateModelMultihash([]byte(text), code)
 		id, iderr := docutil.CalculateID("did:ns", []byte(text), code)
 		var checks []string
 		var recs []interface{}
 		addCheck := func(kind, vtext, hash string, expect bool) {
+			if i%2 == 0 {
+				poison()
+			}
 			err := hashing.IsValidModelMultihash([]byte(vtext), hash)
 			c, cerr := hashing.GetMultihashCode(hash)
 			code := "None"
@@ -354,6 +400,9 @@ func genC04(seed int64, tier string) []caseOut {
 		base := baseProtocol(r)
 		base.MultihashAlgorithms = algs
 		base.MaxOperationHashLength = 200
+		if i%4 == 1 { // the limit exactly at the encoded length of the chain's hashes
+			base.MaxOperationHashLength = map[uint64]uint{18: 46, 19: 88}[code]
+		}
 		kinds := []string{keyKinds[r.Intn(len(keyKinds))]}
 		d := &didState{r: r, cfg: base, code: code, kinds: kinds}
 		p := operationparser.New(base)
@@ -363,12 +412,19 @@ func genC04(seed int64, tier string) []caseOut {
 		var links []string
 		var recs []interface{}
 		length := 2 + r.Intn(7)
+		rotating := i%4 == 0 // a chain that keeps its key material and only moves the nonce: on, off, on ...
+		if rotating {
+			length = 7
+		}
 		var lastUpdC, lastRecC string // commitments reported for the predecessor on each chain
 		ok := true
 		for j := 0; j < length && ok; j++ {
 			typ := "create"
 			if j > 0 {
 				typ = []string{"update", "update", "recover"}[r.Intn(3)]
+				if rotating {
+					typ = []string{"update", "update", "recover", "recover", "update"}[(j-1)%5]
+				}
 				if j == length-1 {
 					typ = "deactivate"
 				}
@@ -377,6 +433,9 @@ func genC04(seed int64, tier string) []caseOut {
 			mut := ""
 			if typ == "deactivate" && r.Intn(2) == 0 {
 				mut = "extra_signed_commitments" // members the deactivate model does not have: still a deactivate, still no next commitment
+			}
+			if (typ == "recover" || typ == "update") && rotating { // rotation to the same key material under another nonce
+				mut = "rotate_nonce_only"
 			}
 			if typ == "recover" && i%3 == 2 { // a recover whose delta this node would refuse at request time still advances the recovery commitment
 				mut = "delta_invalid_patch"
